@@ -91,9 +91,20 @@ def run_case(ctx, gd, q, doms):
         keys.reverse()
     si = {Variable(p): {Variable(z) for z in doms[p][0]} for p in keys}
     res = None
+    # caller-owned objects shared between arguments: when a domain's experiment set (outcome set) equals the target
+    # interventions (outcomes), the very same set object is passed in both places on alternate cases
+    tx = {Variable(x) for x in q["X"]}
+    ty = {Variable(y) for y in q["Y"]}
+    if sum(map(ord, gg.key(gd))) % 3 == 0:
+        for p_ in list(si):
+            if si[p_] == tx:
+                si[p_] = tx
+                kernel.count("C05:aliased-argument-sets")
+            if so[p_] == ty:
+                so[p_] = ty
+                kernel.count("C05:aliased-argument-sets")
     try:
-        res = identify_target_outcomes(g, target_outcomes={Variable(y) for y in q["Y"]},
-                                       target_interventions={Variable(x) for x in q["X"]},
+        res = identify_target_outcomes(g, target_outcomes=ty, target_interventions=tx,
                                        surrogate_outcomes=so, surrogate_interventions=si)
     except Exception:  # noqa: BLE001 -- judged by the monitor
         pass
